@@ -35,6 +35,8 @@ RULE_TEXT = ("bases: the test/blt corpus files <= size_cap plus seeded generated
 
 def _work(task):
     kind = task[0]
+    if kind == 'opt':
+        return _work_optimised(task)
     if kind == 'enum':
         _, R, seed, name, base, part, nparts = task
         return c16.work_enumerate(R, seed, name, base, part, nparts)
@@ -52,6 +54,53 @@ def _work(task):
         return c16.work_scale(R, seed, name, base)
     _, R, bases = task
     return c16.work_faultfree(R, bases)
+
+
+_OPT_CODE = """
+import pickle, sys
+sys.path.insert(0, %r)
+sys.dont_write_bytecode = True
+from dsim import core, run_c16
+R = core.bind_repo(%r)
+with open(sys.argv[1], 'rb') as f:
+    t = pickle.load(f)
+r = run_c16._work((t[0], R) + tuple(t[1:]))
+for v in r['viol']:
+    v['optimised'] = True
+r['probes']['reads_in_optimised_interpreter'] = r['evals']
+r['optimised_flag'] = sys.flags.optimize
+with open(sys.argv[2], 'wb') as f:
+    pickle.dump(r, f)
+"""
+
+
+def _work_optimised(task):
+    """environment fault: the same work in an interpreter started with -O (PYTHONOPTIMIZE=1), where every `assert` of
+    the package is compiled away -- a check written as an assert stops checking.  task = ('opt', R, inner task sans R)"""
+    import pickle       # pylint: disable=import-outside-toplevel
+    import shutil       # pylint: disable=import-outside-toplevel
+    import subprocess   # pylint: disable=import-outside-toplevel
+    import tempfile     # pylint: disable=import-outside-toplevel
+    _, R, inner = task
+    d = tempfile.mkdtemp(prefix='droop-c16-opt-')
+    try:
+        with open(os.path.join(d, 'in'), 'wb') as f:
+            pickle.dump(inner, f)
+        env = dict(os.environ, PYTHONHASHSEED='0', PYTHONDONTWRITEBYTECODE='1')
+        env.pop('PYTHONOPTIMIZE', None)
+        p = subprocess.run([sys.executable, '-O', '-c', _OPT_CODE % (core.VERIF_DIR, R.path),
+                            os.path.join(d, 'in'), os.path.join(d, 'out')],
+                           env=env, capture_output=True, text=True, timeout=1500, check=False)
+        if p.returncode != 0 or not os.path.exists(os.path.join(d, 'out')):
+            raise core.HarnessError("optimised-interpreter arm failed (exit %d): %s" % (
+                p.returncode, (p.stderr or p.stdout)[-600:]))
+        with open(os.path.join(d, 'out'), 'rb') as f:
+            r = pickle.load(f)
+        if not r.get('optimised_flag'):
+            raise core.HarnessError("optimised-interpreter arm did not run under -O")
+        return r
+    finally:
+        shutil.rmtree(d, ignore_errors=True)
 
 
 def run(R, tier, seed):
@@ -76,10 +125,18 @@ def run(R, tier, seed):
         if len(base) <= 600:
             tasks.append(('enum', R, seed, name, base, 0, 1))
             arm.append('regress')
+    # environment fault: the regression inputs and the first enumerated bases once more, each with every systematic
+    # single fault, in an interpreter started with -O
+    tasks.append(('opt', R, ('free', regress)))
+    arm.append('optimised')
+    for name, base in [b for b in regress if len(b[1]) <= 600][:P.get('opt_regress', 40)] + \
+            [b for b in enum_bases if len(b[1]) <= 500][:P.get('opt_bases', 10)]:
+        tasks.append(('opt', R, ('enum', seed, name, base, 0, 1)))
+        arm.append('optimised')
     for part in range(16):
         tasks.append(('soup', R, part, 16))
         arm.append('soup')
-    for j in range(2):
+    for j in range(4):
         tasks.append(('bulk', R, seed, j))
         arm.append('bulk')
     small = sorted((b for b in bases if 60 <= len(b[1]) <= 700 and b[0].startswith('gen/')), key=lambda b: b[0])
